@@ -264,6 +264,104 @@ pub fn probe_structures() -> i32 {
     0
 }
 
+// ---------------------------------------------------------------- generated inputs (deterministic, seeded by VERIF_SEED)
+/// xorshift64*: small deterministic generator so that a run is reproducible from its seed
+pub struct Rng(pub u64);
+impl Rng {
+    pub fn from_env() -> Rng { let s = std::env::var("VERIF_SEED").ok().and_then(|x| x.parse::<u64>().ok()).unwrap_or(0); Rng(0x9E3779B97F4A7C15u64 ^ s.wrapping_mul(0xD1B54A32D192ED03).wrapping_add(1)) }
+    pub fn next(&mut self) -> u64 { let mut x = self.0; x ^= x >> 12; x ^= x << 25; x ^= x >> 27; self.0 = x; x.wrapping_mul(0x2545F4914F6CDD1D) }
+    pub fn below(&mut self, n: u64) -> u64 { if n == 0 { 0 } else { self.next() % n } }
+    pub fn pick<T: Clone>(&mut self, v: &[T]) -> T { v[self.below(v.len() as u64) as usize].clone() }
+    pub fn chance(&mut self, pct: u64) -> bool { self.below(100) < pct }
+}
+fn gen_text(r: &mut Rng) -> String {
+    let alpha = ['a', 'b', 'c', '/', '/', ' ', '\t', '\n', 'é', '\u{a0}', 'z', '-', '+', ';'];
+    let n = r.below(7);
+    (0..n).map(|_| r.pick(&alpha)).collect()
+}
+fn gen_int(r: &mut Rng) -> i128 {
+    let base = r.pick(&[0i128, 1, 2, 3, 4, 5, 6, 7, 8, 9, 10, 23, 24, 38, 60, 255, 256, 257, 65535, 65536, 1 << 31, 1 << 32, (1 << 63) - 1, 1 << 63, (1 << 64) - 1]);
+    let d = r.below(3) as i128 - 1;
+    let x = base + d;
+    let x = if r.chance(40) { -1 - x } else { x };
+    x.clamp(-(1i128 << 64), (1i128 << 64) - 1)
+}
+fn gen_bytes(r: &mut Rng) -> Vec<u8> { let n = r.pick(&[0u64, 0, 1, 1, 2, 3]); (0..n).map(|_| r.below(256) as u8).collect() }
+fn gen_any(r: &mut Rng) -> Value {
+    match r.below(9) {
+        0 => Value::Integer(Integer::try_from(gen_int(r)).unwrap()), 1 => Value::Text(gen_text(r)), 2 => Value::Bytes(gen_bytes(r)), 3 => Value::Null, 4 => Value::Bool(true),
+        5 => Value::Array(vec![]), 6 => Value::Map(vec![]), 7 => Value::Float(r.pick(&[1.5f64, 2.0, f64::NAN, f64::INFINITY, -0.0])), _ => Value::Tag(r.below(100), Box::new(Value::Null)),
+    }
+}
+fn ser(v: &Value) -> Vec<u8> { let mut b = vec![]; ciborium::ser::into_writer(v, &mut b).unwrap(); b }
+fn gen_prot(r: &mut Rng, depth: usize) -> Value {
+    match r.below(10) {
+        0 | 1 | 2 => Value::Bytes(vec![]),
+        3 => Value::Bytes(gen_bytes(r)),                                   // usually not a map
+        4 => { let mut b = ser(&gen_header(r, depth + 1)); b.extend(gen_bytes(r)); Value::Bytes(b) }   // possibly trailing bytes
+        5 => gen_any(r),
+        _ => Value::Bytes(ser(&gen_header(r, depth + 1))),
+    }
+}
+fn gen_sig(r: &mut Rng, depth: usize) -> Value {
+    let mut a = vec![gen_prot(r, depth), if depth < 3 && r.chance(85) { gen_header(r, depth + 1) } else { Value::Map(vec![]) }, if r.chance(90) { Value::Bytes(gen_bytes(r)) } else { gen_any(r) }];
+    if r.chance(8) { a.pop(); } else if r.chance(8) { a.push(Value::Null); }
+    Value::Array(a)
+}
+/// a header-map-like value: mostly well-typed pairs, with every kind of defect mixed in
+pub fn gen_header(r: &mut Rng, depth: usize) -> Value {
+    let n = r.pick(&[0u64, 1, 1, 2, 2, 3, 4, 5]);
+    let mut m = vec![];
+    for _ in 0..n {
+        let label: Value = match r.below(12) { 0..=7 => Value::from(1 + r.below(7) as i64), 8 => Value::Integer(Integer::try_from(gen_int(r)).unwrap()), 9 => Value::Text(gen_text(r)), 10 => Value::from(r.pick(&[0i64, 8, 9, 33, -1])), _ => gen_any(r) };
+        let lab = label_ref(&label);
+        let good = r.chance(75);
+        let val = if !good { gen_any(r) } else { match lab {
+            Some(Ok(1)) => if r.chance(70) { Value::from(r.pick(&[-7i64, -8, 1, 3, -65537, -70000, -65536, -65535, 0, 4, 100])) } else { Value::Text(gen_text(r)) },
+            Some(Ok(2)) => Value::Array((0..r.below(3)).map(|_| if r.chance(70) { Value::from(r.pick(&[1i64, 2, 4, 7, 33, 8, 11])) } else { Value::Text(gen_text(r)) }).collect()),
+            Some(Ok(3)) => if r.chance(60) { Value::Text(gen_text(r)) } else { Value::Integer(Integer::try_from(gen_int(r)).unwrap()) },
+            Some(Ok(4)) | Some(Ok(5)) | Some(Ok(6)) => Value::Bytes(gen_bytes(r)),
+            Some(Ok(7)) => if depth >= 3 { Value::Array(vec![]) } else if r.chance(50) { gen_sig(r, depth) } else { Value::Array((0..r.below(3)).map(|_| gen_sig(r, depth)).collect()) },
+            _ => gen_any(r) } };
+        m.push((label, val));
+    }
+    Value::Map(m)
+}
+/// a COSE_Key-like map
+pub fn gen_key(r: &mut Rng) -> Value {
+    let n = r.pick(&[0u64, 1, 2, 2, 3, 4, 5]);
+    let mut m = vec![];
+    if r.chance(85) { m.push((Value::from(1), if r.chance(85) { Value::from(r.pick(&[1i64, 2, 3, 4, 5, 6, 0, 7, 99])) } else { Value::Text(gen_text(r)) })); }
+    for _ in 0..n {
+        let label: Value = match r.below(12) { 0..=5 => Value::from(1 + r.below(5) as i64), 6 | 7 => Value::Integer(Integer::try_from(gen_int(r)).unwrap()), 8 => Value::Text(gen_text(r)), 9 => Value::from(r.pick(&[0i64, -1, -2, -3, -4, 6])), _ => gen_any(r) };
+        let lab = label_ref(&label);
+        let val = if !r.chance(75) { gen_any(r) } else { match lab {
+            Some(Ok(1)) => Value::from(r.pick(&[1i64, 2, 4, 0, 99])),
+            Some(Ok(2)) | Some(Ok(5)) => Value::Bytes(gen_bytes(r)),
+            Some(Ok(3)) => if r.chance(70) { Value::from(r.pick(&[-7i64, 1, 3, -65537, -65536, 0, 100])) } else { Value::Text(gen_text(r)) },
+            Some(Ok(4)) => Value::Array((0..r.below(4)).map(|_| if r.chance(75) { Value::from(r.pick(&[1i64, 2, 3, 4, 9, 10, 0, 11])) } else { Value::Text(gen_text(r)) }).collect()),
+            _ => gen_any(r) } };
+        m.push((label, val));
+    }
+    if r.chance(30) && m.len() > 1 { let k = r.below(m.len() as u64) as usize; let e = m.remove(k); m.push(e); }
+    Value::Map(m)
+}
+/// a CWT-claims-set-like map
+pub fn gen_claims(r: &mut Rng) -> Value {
+    let n = r.pick(&[0u64, 1, 2, 2, 3, 4]);
+    let mut m = vec![];
+    for _ in 0..n {
+        let label: Value = match r.below(12) { 0..=6 => Value::from(1 + r.below(7) as i64), 7 => Value::from(r.pick(&[8i64, 9, 10, 38, 39, 40, 41, 0, 11, 12])), 8 => Value::Integer(Integer::try_from(gen_int(r)).unwrap()),
+            9 => Value::Text(gen_text(r)), 10 => Value::from(r.pick(&[-65536i64, -65537, -70000, -257, -1])), _ => gen_any(r) };
+        let val = if !r.chance(75) { gen_any(r) } else { match label_ref(&label) {
+            Some(Ok(1)) | Some(Ok(2)) | Some(Ok(3)) => Value::Text(gen_text(r)),
+            Some(Ok(4)) | Some(Ok(5)) | Some(Ok(6)) => if r.chance(60) { Value::Integer(Integer::try_from(gen_int(r)).unwrap()) } else { Value::Float(r.pick(&[1.5f64, 2.0, 1700000000.0, f64::NAN, f64::INFINITY, -0.0])) },
+            Some(Ok(7)) => Value::Bytes(gen_bytes(r)),
+            _ => gen_any(r) } };
+        m.push((label, val));
+    }
+    Value::Map(m)
+}
 // ---------------------------------------------------------------- reference header-map predicate (RFC 8152 3.1)
 fn i128_of(i: &Integer) -> i128 { i128::from(*i) }
 fn label_ref(v: &Value) -> Option<Result<i64, String>> {
@@ -358,7 +456,7 @@ fn cmp_header_fields(v: &Value, h: &Header) -> Option<String> {
     if h.counter_signatures.len() != ncs { return Some("counter_signatures".into()); }
     let rest: Vec<(Value, Value)> = m.iter().filter(|(k, _)| !matches!(label_ref(k), Some(Ok(x)) if (1..=7).contains(&x))).cloned().collect();
     let got: Vec<(Value, Value)> = h.rest.iter().map(|(l, v)| (l.clone().to_cbor_value().unwrap(), v.clone())).collect();
-    if rest != got { return Some("rest (extra parameters / order)".into()); }
+    if ser(&Value::Map(rest.clone())) != ser(&Value::Map(got.clone())) { return Some("rest (extra parameters / order)".into()); }   // byte comparison: NaN == NaN
     None
 }
 /// C08 / C12 (decode) / C02: header maps
@@ -377,12 +475,16 @@ pub fn probe_headers() -> i32 {
     for l1 in labels.iter().take(11) { for l2 in labels.iter().take(11) { for l3 in labels.iter().take(11) {
         maps.push(vec![(l1.clone(), good(l1)[0].clone()), (l2.clone(), good(l2)[0].clone()), (l3.clone(), good(l3)[0].clone())]);
     } } }
+    // generated header maps (seeded): nested counter signatures, protected byte strings, whitespace in content types, boundary integers
+    { let mut r = Rng::from_env(); for _ in 0..6000 { if let Value::Map(m) = gen_header(&mut r, 0) { maps.push(m); } } }
     let mut n = 0u64;
+    let mut accepted = 0u64;
     for m in &maps {
         let v = Value::Map(m.clone());
         for ctx in 0..3 {
             n += 1;
             let want = hdr_ref(&v, 0);
+            if want && ctx == 0 { accepted += 1; }
             let (got, fields): (bool, Option<String>) = match ctx {
                 0 => match Header::from_cbor_value(v.clone()) { Ok(h) => (true, cmp_header_fields(&v, &h)), Err(_) => (false, None) },
                 1 => { let mut b = vec![]; ciborium::ser::into_writer(&v, &mut b).unwrap();
@@ -432,7 +534,7 @@ pub fn probe_headers() -> i32 {
         k.params.push((Label::Int(-1), Value::from(9))); n += 1;
         if !matches!(k.to_cbor_value(), Err(CoseError::DuplicateMapKey)) { if report("C12", format!("COSE_Key with extra label -1 twice: encodes")) { return 1; } }
     }
-    println!("probe headers: {} decodes compared with the reference predicate, no disagreement", n);
+    println!("probe headers: {} decodes compared with the reference predicate ({} of {} maps well-formed), no disagreement", n, accepted, maps.len());
     0
 }
 
@@ -669,6 +771,80 @@ pub fn probe_order() -> i32 {
     0
 }
 
+// ---------------------------------------------------------------- C09: message structures against their CDDL (generated)
+fn bstr_or_nil(v: &Value) -> bool { matches!(v, Value::Bytes(_) | Value::Null) }
+fn recipient_ref(v: &Value) -> bool {
+    match v { Value::Array(a) if a.len() == 3 || a.len() == 4 => prot_ref(&a[0], 0) && hdr_ref(&a[1], 0) && bstr_or_nil(&a[2])
+        && (a.len() == 3 || matches!(&a[3], Value::Array(rs) if rs.iter().all(recipient_ref))), _ => false }
+}
+/// kind: 0 Sign1, 1 Sign, 2 Signature, 3 Mac, 4 Mac0, 5 Encrypt, 6 Encrypt0, 7 recipient
+pub fn msg_ref(kind: usize, v: &Value) -> bool {
+    let a = match v { Value::Array(a) => a, _ => return false };
+    let hdrs = |a: &Vec<Value>| prot_ref(&a[0], 0) && hdr_ref(&a[1], 0);
+    match kind {
+        0 => a.len() == 4 && hdrs(a) && bstr_or_nil(&a[2]) && matches!(a[3], Value::Bytes(_)),
+        1 => a.len() == 4 && hdrs(a) && bstr_or_nil(&a[2]) && matches!(&a[3], Value::Array(s) if s.iter().all(|x| sig_ref(x, 0))),
+        2 => sig_ref(v, 0),
+        3 => a.len() == 5 && hdrs(a) && bstr_or_nil(&a[2]) && matches!(a[3], Value::Bytes(_)) && matches!(&a[4], Value::Array(rs) if rs.iter().all(recipient_ref)),
+        4 => a.len() == 4 && hdrs(a) && bstr_or_nil(&a[2]) && matches!(a[3], Value::Bytes(_)),
+        5 => a.len() == 4 && hdrs(a) && bstr_or_nil(&a[2]) && matches!(&a[3], Value::Array(rs) if rs.iter().all(recipient_ref)),
+        6 => a.len() == 3 && hdrs(a) && bstr_or_nil(&a[2]),
+        _ => recipient_ref(v),
+    }
+}
+fn gen_slot(r: &mut Rng, want: u8) -> Value {
+    // want: 0 protected, 1 header, 2 bstr-or-nil, 3 bstr, 4 signatures, 5 recipients
+    if r.chance(10) { return gen_any(r); }
+    match want {
+        0 => gen_prot(r, 0), 1 => if r.chance(80) { gen_header(r, 1) } else { Value::Map(vec![]) },
+        2 => if r.chance(40) { Value::Null } else { Value::Bytes(gen_bytes(r)) }, 3 => Value::Bytes(gen_bytes(r)),
+        4 => Value::Array((0..r.below(3)).map(|_| gen_sig(r, 0)).collect()),
+        _ => Value::Array((0..r.below(3)).map(|_| gen_recipient(r, 0)).collect()),
+    }
+}
+fn gen_recipient(r: &mut Rng, depth: usize) -> Value {
+    let mut a = vec![gen_slot(r, 0), gen_slot(r, 1), gen_slot(r, 2)];
+    if depth < 2 && r.chance(35) { a.push(Value::Array((0..r.below(3)).map(|_| gen_recipient(r, depth + 1)).collect())); }
+    if r.chance(6) { a.push(Value::Null); }
+    Value::Array(a)
+}
+pub fn probe_messages() -> i32 {
+    let mut r = Rng::from_env();
+    let shapes: [&[u8]; 8] = [&[0, 1, 2, 3], &[0, 1, 2, 4], &[0, 1, 3], &[0, 1, 2, 3, 5], &[0, 1, 2, 3], &[0, 1, 2, 5], &[0, 1, 2], &[0, 1, 2]];
+    let names = ["COSE_Sign1", "COSE_Sign", "COSE_Signature", "COSE_Mac", "COSE_Mac0", "COSE_Encrypt", "COSE_Encrypt0", "COSE_recipient"];
+    let mut n = 0u64; let mut accepted = 0u64;
+    for _ in 0..4000 {
+        let kind = r.below(8) as usize;
+        let mut a: Vec<Value> = if kind == 7 { match gen_recipient(&mut r, 0) { Value::Array(a) => a, _ => vec![] } } else { shapes[kind].iter().map(|w| gen_slot(&mut r, *w)).collect() };
+        if r.chance(7) { a.pop(); } else if r.chance(7) { a.push(gen_any(&mut r)); }
+        let v = if r.chance(3) { gen_any(&mut r) } else { Value::Array(a) };
+        let want = msg_ref(kind, &v);
+        n += 1; if want { accepted += 1; }
+        macro_rules! one { ($t:ty, $payload:ident) => {{
+            let got = <$t>::from_cbor_value(v.clone());
+            if got.is_ok() != want { if report("C09", format!("{} {}: crate {} it, its CDDL says {}", names[kind], hex(&ser(&v)), if got.is_ok() { "accepts" } else { "rejects" }, if want { "accept" } else { "reject" })) { return 1; } }
+            if let (Ok(x), Value::Array(a)) = (got, &v) {
+                // slots map to fields
+                if x.protected.original_data.as_deref() != match &a[0] { Value::Bytes(b) => Some(&b[..]), _ => None } { if report("C02,C09", format!("{} {}: protected bytes not retained", names[kind], hex(&ser(&v)))) { return 1; } }
+                if let Some(f) = cmp_header_fields(&a[1], &x.unprotected) { if report("C09,C08", format!("{} {}: unprotected header field {} differs from the wire", names[kind], hex(&ser(&v)), f)) { return 1; } }
+                let slot: Option<Vec<u8>> = match &a[2] { Value::Bytes(b) => Some(b.clone()), _ => None };
+                if x.$payload != slot { if report("C09", format!("{} {}: payload / ciphertext field {:?} differs from slot", names[kind], hex(&ser(&v)), x.$payload)) { return 1; } }
+                // C07: the accepted value re-encodes and decodes to the same value
+                let back = x.clone().to_cbor_value().ok().and_then(|w| <$t>::from_cbor_value(w).ok());
+                if back.map(|b| format!("{:?}", b)) != Some(format!("{:?}", x)) { if report("C07,C11", format!("{} {}: does not survive encode/decode", names[kind], hex(&ser(&v)))) { return 1; } }
+            }
+        }}; }
+        match kind {
+            0 => one!(CoseSign1, payload), 1 => one!(CoseSign, payload), 3 => one!(CoseMac, payload), 4 => one!(CoseMac0, payload),
+            5 => one!(CoseEncrypt, ciphertext), 6 => one!(CoseEncrypt0, ciphertext), 7 => one!(CoseRecipient, ciphertext),
+            _ => { let got = CoseSignature::from_cbor_value(v.clone());
+                   if got.is_ok() != want { if report("C09", format!("COSE_Signature {}: crate {} it, its CDDL says {}", hex(&ser(&v)), if got.is_ok() { "accepts" } else { "rejects" }, if want { "accept" } else { "reject" })) { return 1; } } }
+        }
+    }
+    println!("probe messages: {} generated structures ({} well-formed), no disagreement", n, accepted);
+    0
+}
+
 // ---------------------------------------------------------------- C10: COSE_Key / COSE_KeySet
 fn alg_ok(val: &Value) -> bool { match val { Value::Integer(i) => i64::try_from(i128_of(i)).map(|x| ALGS.contains(&x) || x < -65536).unwrap_or(false), Value::Text(_) => true, _ => false } }
 fn reg_or_text(val: &Value, table: &[i64]) -> bool { match val { Value::Integer(i) => i64::try_from(i128_of(i)).map(|x| table.contains(&x)).unwrap_or(false), Value::Text(_) => true, _ => false } }
@@ -700,6 +876,7 @@ pub fn probe_keys() -> i32 {
     let mut maps: Vec<Vec<(Value, Value)>> = vec![vec![]];
     for l in &labels { for v in &values { maps.push(vec![(l.clone(), v.clone())]); maps.push(vec![(Value::from(1), Value::from(4)), (l.clone(), v.clone())]); maps.push(vec![(l.clone(), v.clone()), (Value::from(1), Value::Text("kt".into()))]); } }
     for l1 in &labels { for l2 in &labels { maps.push(vec![(Value::from(1), Value::from(2)), (l1.clone(), Value::Bytes(vec![7])), (l2.clone(), Value::Bytes(vec![8]))]); } }
+    { let mut r = Rng::from_env(); for _ in 0..6000 { if let Value::Map(m) = gen_key(&mut r) { maps.push(m); } } }
     let mut n = 0u64;
     for m in &maps {
         n += 1;
@@ -722,9 +899,9 @@ pub fn probe_keys() -> i32 {
             if ops != wops { if report("C10", format!("COSE_Key {}: key_ops differ from the wire", hex(&b))) { return 1; } }
             let rest: Vec<(Value, Value)> = m.iter().filter(|(kk, _)| !matches!(label_ref(kk), Some(Ok(x)) if (1..=5).contains(&x))).cloned().collect();
             let gotp: Vec<(Value, Value)> = k.params.iter().map(|(l, v)| (l.clone().to_cbor_value().unwrap(), v.clone())).collect();
-            if rest != gotp { if report("C10", format!("COSE_Key {}: extra parameters differ from the wire (content or order)", hex(&b))) { return 1; } }
+            if ser(&Value::Map(rest.clone())) != ser(&Value::Map(gotp.clone())) { if report("C10", format!("COSE_Key {}: extra parameters differ from the wire (content or order)", hex(&b))) { return 1; } }
             // decode(encode(k)) == k, and the set form
-            match k.clone().to_cbor_value().and_then(CoseKey::from_cbor_value) { Ok(k2) if k2 == k => {}, _ => { if report("C10", format!("COSE_Key {}: does not survive encode/decode", hex(&b))) { return 1; } } }
+            match k.clone().to_cbor_value().and_then(CoseKey::from_cbor_value) { Ok(k2) if format!("{:?}", k2) == format!("{:?}", k) => {}, _ => { if report("C10", format!("COSE_Key {}: does not survive encode/decode", hex(&b))) { return 1; } } }
         }
     }
     let good = Value::Map(vec![(Value::from(1), Value::from(4))]);
@@ -792,6 +969,7 @@ pub fn probe_claims() -> i32 {
     let mut maps: Vec<Vec<(Value, Value)>> = vec![vec![]];
     for k in &keys { for v in &vals { maps.push(vec![(k.clone(), v.clone())]); } }
     for k1 in &keys { for k2 in &keys { maps.push(vec![(k1.clone(), Value::Text("a".into())), (k2.clone(), Value::Text("b".into()))]); maps.push(vec![(k1.clone(), Value::from(5)), (Value::from(-70000), Value::Null), (k2.clone(), Value::from(6))]); } }
+    { let mut r = Rng::from_env(); for _ in 0..6000 { if let Value::Map(m) = gen_claims(&mut r) { maps.push(m); } } }
     for m in &maps {
         n += 1;
         let v = Value::Map(m.clone());
@@ -874,6 +1052,21 @@ pub fn probe_builders() -> i32 {
         if built != model { if report("C19", format!("HeaderBuilder sequence #{}: built {:?}, documented effects give {:?}", n, built, model)) { return 1; } }
         if !built.iv.is_empty() && !built.partial_iv.is_empty() { if report("C19", format!("HeaderBuilder sequence #{} carries both IV and Partial IV", n)) { return 1; } }
     } } }
+    // generated longer call sequences (seeded)
+    {
+        let mut r = Rng::from_env();
+        for _ in 0..3000 {
+            n += 1;
+            let len = 1 + r.below(8);
+            let mut model = Header::default();
+            let mut bld = HeaderBuilder::new();
+            let mut trace = vec![];
+            for _ in 0..len { let c = r.pick(&calls); trace.push(calls.iter().position(|x| std::mem::discriminant(x) == std::mem::discriminant(&c)).unwrap_or(0)); bld = apply(bld, &mut model, &c); }
+            let built = bld.build();
+            if built != model { if report("C19", format!("HeaderBuilder generated sequence (call kinds {:?}): built {:?}, documented effects give {:?}", trace, built, model)) { return 1; } }
+            if !built.iv.is_empty() && !built.partial_iv.is_empty() { if report("C19", format!("HeaderBuilder generated sequence {:?} carries both IV and Partial IV", trace)) { return 1; } }
+        }
+    }
     // reserved labels are refused (documented panic), every other label is appended
     std::panic::set_hook(Box::new(|_| {}));
     for l in -2i64..=12 {
